@@ -61,8 +61,6 @@ NA_FIXED = {
         "discrete ingredients are covered by C02/C09/C12/C13/C15)",
  "C08": "directional derivative / adjoint identity over real vectors through "
         "solves; analytic, nothing for TLC to enumerate",
- "C14": "logarithms/powers and their derivatives over twelve decades; only "
-        "the rejection clause is discrete and too small a part to claim",
 }
 
 CLAIMED["C12"] = dict(
@@ -397,7 +395,37 @@ CLAIMED["C16"] = dict(
        "not covered.",
   ref="DESIGN.md section 5 (C16)", engine="tlc-gridding")
 
+CLAIMED["C14"] = dict(
+  category="exploration",
+  technique="TLA+ model of Model construction / assignment on value classes "
+            "(ModelState.tla) and exponent algebra of the six mappings on "
+            "sigma = 10^k (Mapping.tla) checked exhaustively by TLC + TLC "
+            "trace validation of real Model histories (TraceModelState.tla) "
+            "and TLC validation of the recognised values of the real Map "
+            "classes (MappingCode.tla) with attached floating-point "
+            "observations",
+  text="Partial claim.  TLC decides: non-positive / non-finite "
+       "conductivities (through every mapping), permeabilities and "
+       "permittivities are rejected at construction and on assignment for "
+       "every subset of parameters and value class, a rejection changes "
+       "nothing, the anisotropy case; on the lattice sigma = 10^k over "
+       "twelve decades: round trip, the same sigma from every "
+       "parametrisation, the documented chain-rule factors are the "
+       "derivatives of the inverse maps, and the real Map classes return "
+       "exactly these values (recognised to 1e-13).  Observed on top (handed "
+       "to TLC as booleans): round trips and the chain rule at random values "
+       "(against central differences of the code's own backward map and the "
+       "harness's formulas), in-place contract, VolumeModel coefficients "
+       "(1e-12) and solved fields (1e-6) equal for all parametrisations, "
+       "anisotropy cases, mu_r / epsilon_r, frequency and Laplace domain.",
+  note="Trusted: TLC, recognition of floats as lattice values, tolerances.  "
+       "'The same data' is not observed separately from 'the same fields'.",
+  ref="DESIGN.md section 5 (C14)", engine="tlc-mapping")
+
 ENGINES = [
+ dict(name="tlc-mapping", path="spec/Mapping.tla", serves_properties=["C14"],
+      kind_free_text="TLA+ specs + TLC exhaustive + TLC trace / instance "
+                     "validation"),
  dict(name="tlc-gridding", path="spec/Gridding.tla", serves_properties=["C16"],
       kind_free_text="TLA+ spec + TLC exhaustive + TLC trace validation"),
  dict(name="tlc-layered", path="spec/Layered.tla", serves_properties=["C19"],
